@@ -371,6 +371,11 @@ def pem_texts(der, marker):
         ("pem-no-begin", mk(lines[1:])),
         ("pem-no-end", mk(lines[:-1])),
         ("pem-end-marker-differs", mk(lines[:-1] + ["-----END OTHER KEY-----"])),
+        ("pem-end-marker-one-char-differs", mk(lines[:-1] + ["-----END %s-----" % (marker[:1] + "5" + marker[2:] if marker[1:2] != "5" else marker[:1] + "6" + marker[2:])])),
+        ("pem-dotted-marker-end-differs", mk(["-----BEGIN X.509 KEY-----"] + body + ["-----END X5509 KEY-----"])),
+        ("pem-star-marker-end-differs", mk(["-----BEGIN .*-----"] + body + ["-----END ANYTHING-----"])),
+        ("pem-marker-unbalanced-paren", mk(["-----BEGIN KEY (-----"] + body + ["-----END KEY (-----"])),
+        ("pem-marker-bracket", mk(["-----BEGIN [-----"] + body + ["-----END [-----"])),
         ("pem-four-dashes", mk(["----BEGIN %s-----" % marker] + lines[1:])),
         ("pem-empty-marker", mk(["-----BEGIN -----"] + body + ["-----END -----"])),
         ("pem-no-body", mk([lines[0], lines[-1]])),
